@@ -5,6 +5,7 @@ import (
 	"context"
 	"crypto"
 	"crypto/rand"
+	"crypto/rsa"
 	"crypto/x509"
 	"encoding/asn1"
 	"encoding/hex"
@@ -43,13 +44,19 @@ type builtCase struct {
 	TSA     string         // dergen | ossl:<name>
 	Token   *dergen.Params `json:",omitempty"` // dergen token shape (nil = base)
 	After   string         // "" | detach (jar/csblob/xar: Detach + Marshal after TimestampAndMarshal)
-	Chain   string         `json:",omitempty"` // "" (leaf, intermediate, root) | cross (plus the same intermediate certified by a second root: same name, key and key identifier) | repeated (the leaf listed twice, as a bundle that repeats it does)
+	// SigOpts: "" (the digest alone: PKCS#1 v1.5 / ECDSA) | pss-auto | pss-equals-hash | pss-salt-20
+	// (an *rsa.PSSOptions with that salt length, as library callers and the worker RPC pass)
+	SigOpts string `json:",omitempty"`
+	Chain   string `json:",omitempty"` // "" (leaf, intermediate, root) | cross (plus the same intermediate certified by a second root: same name, key and key identifier) | repeated (the leaf listed twice, as a bundle that repeats it does)
 }
 
 func (c builtCase) String() string {
 	s := fmt.Sprintf("key=%s hash=%s content=%s attrs=%s stamp=%s tsa=%s after=%s", c.Key, c.Hash, c.Content, c.Attrs, c.Stamp, c.TSA, c.After)
 	if c.Chain != "" {
 		s += " chain=" + c.Chain
+	}
+	if c.SigOpts != "" {
+		s += " sigopts=" + c.SigOpts
 	}
 	if c.Token != nil {
 		s += " token{" + c.Token.String() + "}"
@@ -74,7 +81,7 @@ type harnessTSA struct {
 var (
 	tsaSrvOnce sync.Once
 	tsaSrv     *httptest.Server
-	tsaRegMu      sync.Mutex
+	tsaRegMu   sync.Mutex
 	tsaReg     = map[string]*harnessTSA{}
 	tsaSeq     int
 )
@@ -311,7 +318,16 @@ func runBuilt(c builtCase) {
 	var psd *pkcs7.ContentInfoSignedData
 	var ext []byte
 	err, pan := guard(in, "pkcs7.SignatureBuilder.Sign", func() error {
-		sb := pkcs7.NewBuilder(k.Signer, c.chain(k), h)
+		var so crypto.SignerOpts = h
+		switch c.SigOpts {
+		case "pss-auto":
+			so = &rsa.PSSOptions{Hash: h} // SaltLength 0 = rsa.PSSSaltLengthAuto
+		case "pss-equals-hash":
+			so = &rsa.PSSOptions{Hash: h, SaltLength: rsa.PSSSaltLengthEqualsHash}
+		case "pss-salt-20":
+			so = &rsa.PSSOptions{Hash: h, SaltLength: 20}
+		}
+		sb := pkcs7.NewBuilder(k.Signer, c.chain(k), so)
 		switch c.Content {
 		case "data":
 			if err := sb.SetContentData(dergen.DataContent); err != nil {
@@ -387,6 +403,16 @@ func runBuilt(c builtCase) {
 		// relic refuses the authority's answer (or its own product): not an
 		// emission, so nothing to compare. Counted by class.
 		run.Outcome("built:refused:" + short(err))
+		if c.SigOpts != "" && c.Stamp == "none" {
+			// relic's check of its own product: the same case signed with the
+			// digest alone tells whether the refusal is about the case (detached
+			// content, ...) or about what the builder emitted for these options
+			base := c
+			base.SigOpts = ""
+			if builtEmits(base) {
+				violation("built:own-product-refused:"+c.SigOpts, fmt.Sprintf("built %s: %v (the same case with PKCS#1 v1.5 is emitted)", c, err), in.replay("built", nil))
+			}
+		}
 		return
 	}
 	blob := out.Raw
@@ -514,6 +540,33 @@ func runBuilt(c builtCase) {
 	in.Ext = ext
 	in.OpenSSL = c.Token == nil
 	runOps(in)
+}
+
+// builtEmits: does the builder + TimestampAndMarshal path emit anything for c (no authority involved)?
+func builtEmits(c builtCase) bool {
+	k := fx.Keys[c.Key]
+	h := map[string]crypto.Hash{"sha1": crypto.SHA1, "sha256": crypto.SHA256, "sha384": crypto.SHA384}[c.Hash]
+	ok := false
+	func() {
+		defer func() { _ = recover() }()
+		sb := pkcs7.NewBuilder(k.Signer, c.chain(k), h)
+		if c.Content == "detached" {
+			d := h.New()
+			d.Write(dergen.DataContent)
+			if sb.SetDetachedContent(pkcs7.OidData, d.Sum(nil)) != nil {
+				return
+			}
+		} else if sb.SetContentData(dergen.DataContent) != nil {
+			return
+		}
+		psd, err := sb.Sign()
+		if err != nil {
+			return
+		}
+		_, err = pkcs9.TimestampAndMarshal(context.Background(), psd, nil, false)
+		ok = err == nil
+	}()
+	return ok
 }
 
 func short(err error) string {
